@@ -401,9 +401,10 @@ impl Bucket {
         refill_period: time::Duration,
     ) -> Result<Self, InvalidBucketConfig> {
         // milliseconds is the tokio timer resolution
-        let refill = bytes_per_second.saturating_mul(refill_period.as_millis() as i64) / 1000;
+        let period_ms = i64::try_from(refill_period.as_millis()).unwrap_or(i64::MAX);
+        let refill = bytes_per_second.saturating_mul(period_ms) / 1000;
         ensure!(
-            max > 0 && bytes_per_second > 0 && refill_period.as_millis() as u32 > 0 && refill > 0,
+            max > 0 && bytes_per_second > 0 && period_ms > 0 && refill > 0,
             InvalidBucketConfig {
                 max,
                 bytes_per_second,
@@ -436,19 +437,21 @@ impl Bucket {
 
     fn update_state(&mut self) {
         let now = time::Instant::now();
-        // div safety: self.refill_period.as_millis() is checked to be non-null in constructor
-        let refill_periods = now.saturating_duration_since(self.last_fill).as_millis() as u32
-            / self.refill_period.as_millis() as u32;
+        // div safety: self.refill_period.as_millis() is checked to be non-null in constructor.
+        // Both values are u128 milliseconds: no truncation, whatever the period or the idle time.
+        let period_ms = self.refill_period.as_millis();
+        let refill_periods = now.saturating_duration_since(self.last_fill).as_millis() / period_ms;
         if refill_periods == 0 {
             // Nothing to do - we won't refill yet
             return;
         }
 
-        self.fill = self
-            .fill
-            .saturating_add(refill_periods as i64 * self.refill);
-        self.fill = std::cmp::min(self.fill, self.max);
-        self.last_fill += self.refill_period * refill_periods;
+        let tokens = i64::try_from(refill_periods)
+            .unwrap_or(i64::MAX)
+            .saturating_mul(self.refill);
+        self.fill = std::cmp::min(self.fill.saturating_add(tokens), self.max);
+        // refill_periods * period_ms is at most the elapsed time, so it fits the clock's range.
+        self.last_fill += time::Duration::from_millis((refill_periods * period_ms) as u64);
     }
 
     /// Attempts to consume `bytes` tokens from the bucket.
